@@ -171,7 +171,8 @@ def feed(logic, s, toks=None):
 
 
 ALL_TOKENS = ['true', 'false', '(', ')', 'not', 'or', 'and', '-->', 'A', 'E',
-              'X', 'F', 'G', 'U', 'R', 'p', 'q', 'zeta', '~', '|', '&']
+              'X', 'F', 'G', 'U', 'R', 'p', 'q', 'zeta', '~', '|', '&',
+              '"quoted atom"', '"U"']
 
 
 def mutants(r, toks, k):
